@@ -177,7 +177,7 @@ def padBeforeUnionBlob (r : RustAgg) : Bool :=
 bit-field starts at offset 0) -/
 def unionUnitShort (c : CAgg) : Bool :=
   c.isUnion && c.fields.any fun f => match f with
-    | .unit _ l e => decide (8 * l.size < e)
+    | .unit _ l e _ => decide (8 * l.size < e)
     | _ => false
 
 /-- the emitted struct is not packed, yet the C compiler placed a member at an offset that is not
@@ -191,7 +191,28 @@ def unpackedMisalignedMember (c : CAgg) (r : RustAgg) : Bool :=
         | none => false)
     | _ => false
 
+/-- a bit-field allocation unit that the emitted aggregate places (alignment 1, right after the
+previous field) at another byte than the one libclang's bit offsets say it starts at: the
+accessors read and write the wrong bytes (`saw_bitfield_unit` never looks at the unit's offset) -/
+def unitMisplaced (c : CAgg) (r : RustAgg) : Bool :=
+  match reprC r with
+  | some l => c.fields.any fun f => match f with
+      | .unit n _ _ (some s) => (match l.unitOffset n with | some o => o * 8 != s | none => false)
+      | _ => false
+  | none => false
+
+/-- a packed aggregate never gets padding fields, so it cannot reproduce a gap the C compiler left
+in front of a member (member-level `aligned(N)` inside a packed / `#pragma pack` record): some
+member is placed by `repr(C, packed(N))` before the offset libclang reports -/
+def packedGap (c : CAgg) (r : RustAgg) : Bool :=
+  r.packed.isSome && !r.isUnion &&
+  match reprC r with
+  | some l => (cOffsets 0 c.fields).any fun (i, o) => l.userOffsets.any fun (j, ro) => i == j && decide (ro < o)
+  | none => false
+
 def regionNames (c : CAgg) (r : RustAgg) : List String :=
+  (if packedGap c r then ["packed_member_gap"] else []) ++
+  (if unitMisplaced c r then ["bitfield_unit_misplaced"] else []) ++
   (if unpackedMisalignedMember c r then ["unpacked_misaligned_member"] else []) ++
   (if doubleTailPad r then ["explicit_padding_double_tail"] else []) ++
   (if padBeforeUnionBlob r then ["explicit_padding_union_wrapper"] else []) ++
@@ -250,14 +271,14 @@ def witnessPackedN : CAgg :=
 /-- `union __attribute__((packed)) UB { long a : 42; int b : 3; };` -/
 def witnessUnionUnitShort : CAgg :=
   { isUnion := true, layout := some { size := 6, align := 1 }, packedAttr := true,
-    fields := [.unit 1 { size := 1, align := 1 } 42] }
+    fields := [.unit 1 { size := 1, align := 1 } 42 (some 0)] }
 
 /-- `struct DT { int a : 3; long b; char c : 2; };` with `--explicit-padding` -/
 def witnessDoubleTail : CAgg :=
   { layout := some { size := 24, align := 8 },
-    fields := [.unit 1 { size := 1, align := 1 } 3,
+    fields := [.unit 1 { size := 1, align := 1 } 3 (some 0),
                .data { layout := some { size := 8, align := 8 } } (some 64),
-               .unit 2 { size := 1, align := 1 } 2] }
+               .unit 2 { size := 1, align := 1 } 2 (some 128)] }
 
 /-- `union UW { int z[0]; char c[5]; int a; };` with `--explicit-padding` -/
 def witnessUnionWrapper : CAgg :=
@@ -271,12 +292,50 @@ def witnessTailUnderflow : CAgg :=
   { isUnion := true, layout := some { size := 8, align := 8 }, allCanCopy := false,
     fields := [.data { layout := some { size := 0, align := 4 }, array := some (some { size := 4, align := 4 }, 0) } (some 0),
                .data { layout := some { size := 8, align := 8 } } (some 0),
-               .unit 1 { size := 1, align := 1 } 3] }
+               .unit 1 { size := 1, align := 1 } 3 (some 0)] }
 
 /-- `#pragma pack(2)` around `struct __attribute__((aligned(8))) UM { char a; long b; };` -/
 def witnessMisaligned : CAgg :=
   { layout := some { size := 16, align := 8 },
     fields := [.data { layout := some { size := 1, align := 1 } } (some 0),
                .data { layout := some { size := 8, align := 8 } } (some 16)] }
+
+/-- `#pragma pack(2)` around `struct Q { char a; int b; short c; };` -/
+def witnessPackedOk : CAgg :=
+  { layout := some { size := 8, align := 2 },
+    fields := [.data { layout := some { size := 1, align := 1 } } (some 0),
+               .data { layout := some { size := 4, align := 4 } } (some 16),
+               .data { layout := some { size := 2, align := 2 } } (some 48)] }
+
+/-- `union U { char c; double d; int a[3]; };` -/
+def witnessUnionOk : CAgg :=
+  { isUnion := true, layout := some { size := 16, align := 8 },
+    fields := [.data { layout := some { size := 1, align := 1 } } (some 0),
+               .data { layout := some { size := 8, align := 8 } } (some 0),
+               .data { layout := some { size := 12, align := 4 }, array := some (some { size := 4, align := 4 }, 3) } (some 0)] }
+
+/-- an opaque record of 24 bytes, alignment 8, that had bit-fields -/
+def witnessOpaqueOk : CAgg :=
+  { layout := some { size := 24, align := 8 }, isOpaque := true,
+    fields := [.unit 1 { size := 3, align := 1 } 20 (some 0), .data { layout := some { size := 8, align := 8 } } (some 64)] }
+
+/-- `struct T7 { char a; int b : 30; };` (clang: `b` at bit 32) -/
+def witnessUnitMisplaced : CAgg :=
+  { layout := some { size := 8, align := 4 },
+    fields := [.data { layout := some { size := 1, align := 1 } } (some 0),
+               .unit 1 { size := 4, align := 1 } 30 (some 32)] }
+
+/-- `#pragma pack(4)` around `struct PG { signed char a; signed char b __attribute__((aligned(16))); long c; };` -/
+def witnessPackedGap : CAgg :=
+  { layout := some { size := 16, align := 4 }, packedAttr := false,
+    fields := [.data { layout := some { size := 1, align := 1 } } (some 0),
+               .data { layout := some { size := 1, align := 1 } } (some 32),
+               .data { layout := some { size := 8, align := 8 } } (some 64)] }
+
+/-- `struct { long a; __int128 b; }` -/
+def witnessAlign16 : CAgg :=
+  { layout := some { size := 32, align := 16 },
+    fields := [.data { layout := some { size := 8, align := 8 } } (some 0),
+               .data { layout := some { size := 16, align := 16 } } (some 128)] }
 
 end BindgenModel.CompCodegen
